@@ -25,6 +25,7 @@ def run(chk, tier):
         tot[2] += c
     cfgfacts.check_assert_config(chk)
     chk.floor("R-CHK", chk.rule_counts.get("R-CHK", 0), 1500)
+    chk.floor("R-CHK.step", chk.rule_counts.get("R-CHK.step", 0), 2)
     chk.extra["functions_analysed"] = tot[0]
     chk.extra["functions_skipped_budget_or_visit"] = tot[2]
     chk.assumptions += ["dimension / length encodings are unsigned (SBE requirement; the validator does not enforce it: finding D15)",
@@ -38,7 +39,9 @@ def run(chk, tier):
                      "combination of at most two facts; no solver). Post-dominating checks are accepted only for the "
                      "single-pass copy operations listed in rchk.POST_CHECK_OK. Plus the preprocessor truth table of "
                      "SBEPP_SIZE_CHECKS_ENABLED over the four configuration macros. Decides the per-operation clause; "
-                     "operation sequences follow operation by operation; formation of out-of-range pointers without "
-                     "access is not covered."),
+                     "operation sequences follow operation by operation. R-CHK.step: an operation of a class carrying `end` "
+                     "that moves its own ptr by an amount read from the buffer (forward iterator step) must have asserted "
+                     "facts implying ptr' <= end, since later checks compute end - ptr unsigned. Formation of out-of-range "
+                     "pointers by caller-supplied amounts (random access iterator arithmetic) is not covered."),
         rule_text=("instances = (function instantiation shape, path, access event); distinct by (function template, access "
                    "kind, address form); all are non-trivial (each needs a dominance + affine implication test)"))
